@@ -1,1 +1,559 @@
-fn main(){}
+//! hk: C19 - kernel vhost / vDPA operations issue exactly the UAPI ioctls with UAPI layouts.
+//!
+//! Runs the real kernel backends of `vhost` (VhostKernVdpa, Net, Vsock and the blanket
+//! VhostBackend / VhostKernFeatures / IOTLB implementations) on a dummy descriptor while the
+//! LD_PRELOAD shim (harness/interpose/ioctl_shim.c) captures (fd, request, argument bytes) of
+//! every ioctl of type 0xAF and every write(2) to the device and plays the kernel's part
+//! (pattern written back for _IOC_READ arguments). Expectations come from uapi.txt, printed by a
+//! C program compiled against <linux/vhost.h>: request numbers, struct sizes and field offsets.
+//!
+//! usage: LD_PRELOAD=libhkshim.so hk c19 [--tier ..] [--seed ..] [--shard ..] [--only CASE]
+
+#![allow(dead_code, clippy::too_many_arguments)]
+
+use common::cli::Cfg;
+use common::{jo, report, Rng, J};
+use std::collections::HashMap;
+use std::fs::File;
+use std::os::unix::io::AsRawFd;
+use std::sync::Arc;
+
+use vhost::net::VhostNet;
+use vhost::vdpa::VhostVdpa;
+use vhost::vhost_kern::net::Net;
+use vhost::vhost_kern::vdpa::VhostKernVdpa;
+use vhost::vhost_kern::vhost_binding::{vhost_msg, vhost_msg_v2};
+use vhost::vhost_kern::vsock::Vsock;
+use vhost::vhost_kern::VhostKernFeatures;
+use vhost::vsock::VhostVsock;
+use vhost::{VhostAccess, VhostBackend, VhostIotlbBackend, VhostIotlbMsg, VhostIotlbMsgParser, VhostIotlbType, VhostUserMemoryRegionInfo, VringConfigData};
+use vm_memory::{GuestAddress, GuestMemory, GuestMemoryMmap};
+use vmm_sys_util::eventfd::EventFd;
+
+type Mem = Arc<GuestMemoryMmap<()>>;
+
+// ---- shim interface (resolved at run time: the shim is an LD_PRELOAD library) -----------------
+struct Shim {
+    take: unsafe extern "C" fn(*mut u8, usize) -> usize,
+    fail_next: unsafe extern "C" fn(i32),
+    adopt: unsafe extern "C" fn(i32),
+}
+
+fn shim() -> Option<Shim> {
+    unsafe {
+        let sym = |n: &str| {
+            let c = std::ffi::CString::new(n).ok()?;
+            let p = libc::dlsym(libc::RTLD_DEFAULT, c.as_ptr());
+            if p.is_null() {
+                None
+            } else {
+                Some(p)
+            }
+        };
+        Some(Shim {
+            take: std::mem::transmute::<*mut libc::c_void, unsafe extern "C" fn(*mut u8, usize) -> usize>(sym("hk_log_take")?),
+            fail_next: std::mem::transmute::<*mut libc::c_void, unsafe extern "C" fn(i32)>(sym("hk_fail_next")?),
+            adopt: std::mem::transmute::<*mut libc::c_void, unsafe extern "C" fn(i32)>(sym("hk_adopt_fd")?),
+        })
+    }
+}
+
+#[derive(Clone, Debug)]
+struct Rec {
+    kind: u32, // 1 ioctl, 2 write
+    fd: i32,
+    req: u64,
+    seq: u32,
+    arg: Vec<u8>,
+    wb: Vec<u8>,
+}
+
+fn take_log(s: &Shim) -> Vec<Rec> {
+    let mut buf = vec![0u8; 1 << 20];
+    let n = unsafe { (s.take)(buf.as_mut_ptr(), buf.len()) };
+    let b = &buf[..n];
+    let mut v = Vec::new();
+    let mut o = 0usize;
+    let rd32 = |b: &[u8], o: usize| u32::from_ne_bytes(b[o..o + 4].try_into().unwrap());
+    while o + 24 <= b.len() {
+        let kind = rd32(b, o);
+        let fd = rd32(b, o + 4) as i32;
+        let req = u64::from_ne_bytes(b[o + 8..o + 16].try_into().unwrap());
+        let len = rd32(b, o + 16) as usize;
+        let seq = rd32(b, o + 20);
+        o += 24;
+        let arg = b[o..o + len].to_vec();
+        o += len;
+        let wlen = rd32(b, o) as usize;
+        o += 4;
+        let wb = b[o..o + wlen].to_vec();
+        o += wlen;
+        v.push(Rec { kind, fd, req, seq, arg, wb });
+    }
+    v
+}
+
+// ---- UAPI expectation table ------------------------------------------------------------------
+struct Uapi(HashMap<String, u64>);
+impl Uapi {
+    fn load() -> Option<Uapi> {
+        let p = std::env::var("HK_UAPI").unwrap_or_else(|_| "/verif/target/interpose/uapi.txt".into());
+        let s = std::fs::read_to_string(p).ok()?;
+        Some(Uapi(s.lines().filter_map(|l| l.split_once(' ')).filter_map(|(k, v)| Some((k.to_string(), v.trim().parse().ok()?))).collect()))
+    }
+    fn req(&self, n: &str) -> u64 {
+        *self.0.get(&format!("req.{n}")).unwrap_or_else(|| panic!("uapi: no request {n}"))
+    }
+    fn off(&self, s: &str, f: &str) -> usize {
+        *self.0.get(&format!("off.{s}.{f}")).unwrap_or_else(|| panic!("uapi: no offset {s}.{f}")) as usize
+    }
+    fn size(&self, s: &str) -> usize {
+        *self.0.get(&format!("size.{s}")).unwrap_or_else(|| panic!("uapi: no size {s}")) as usize
+    }
+    fn konst(&self, n: &str) -> u64 {
+        *self.0.get(&format!("const.{n}")).unwrap_or_else(|| panic!("uapi: no const {n}"))
+    }
+}
+
+/// Build the bytes of a UAPI struct from (field, width, value) triples at the header's offsets.
+fn layout(u: &Uapi, s: &str, fields: &[(&str, usize, u64)]) -> Vec<u8> {
+    let mut b = vec![0u8; u.size(s)];
+    for (f, w, v) in fields {
+        let o = u.off(s, f);
+        b[o..o + w].copy_from_slice(&v.to_ne_bytes()[..*w]);
+    }
+    b
+}
+
+struct Ctx<'a> {
+    cfg: &'a Cfg,
+    shim: Shim,
+    u: Uapi,
+}
+
+impl Ctx<'_> {
+    /// Judge one operation: exactly one ioctl with this request and these argument bytes
+    /// (`mask`: which bytes are compared; struct padding is not).
+    fn expect_ioctl(&self, op: &str, fd: i32, req_name: &str, arg: &[u8], what: J) -> Option<Rec> {
+        let log = take_log(&self.shim);
+        report::eval(1);
+        report::count(&format!("op.{op}"), 1);
+        report::distinct(report::hash_mix(report::hash_str(op), report::hash_bytes(arg)));
+        let want = self.u.req(req_name);
+        let ok = log.len() == 1 && log[0].kind == 1 && log[0].fd == fd && log[0].req == want && log[0].arg == arg;
+        if !ok {
+            let sig = if log.len() != 1 {
+                "ioctl-count"
+            } else if log[0].req != want {
+                "wrong-request"
+            } else if log[0].fd != fd {
+                "wrong-descriptor"
+            } else {
+                "argument-bytes"
+            };
+            report::violation(
+                &format!("C19:{op}:{sig}"),
+                jo! {"operation" => op, "inputs" => what, "expected_request" => format!("{req_name} = {want:#x}"), "expected_argument" => J::hex(arg),
+                "captured" => log.iter().map(|r| jo!{"kind" => r.kind, "request" => J::x64(r.req), "argument" => J::hex(&r.arg)}).collect::<Vec<J>>()},
+                self.cfg.replay(op),
+            );
+            return None;
+        }
+        report::sample(op, jo! {"operation" => op, "request" => format!("{req_name} = {want:#x}"), "argument" => J::hex(arg), "inputs" => what});
+        log.into_iter().next()
+    }
+
+    fn expect_none(&self, op: &str, what: J) {
+        let log = take_log(&self.shim);
+        report::eval(1);
+        report::count(&format!("refused.{op}"), 1);
+        report::distinct_str(&format!("refused:{op}:{what}"));
+        if !log.is_empty() {
+            report::violation(&format!("C19:{op}:invalid-config-reached-the-kernel"), jo! {"operation" => op, "inputs" => what, "captured" => log.iter().map(|r| J::x64(r.req)).collect::<Vec<J>>()}, self.cfg.replay(op));
+        }
+    }
+
+    fn bad(&self, op: &str, sig: &str, detail: J) {
+        report::violation(&format!("C19:{op}:{sig}"), detail, self.cfg.replay(op));
+    }
+}
+
+fn u64_of(b: &[u8]) -> u64 {
+    let mut x = [0u8; 8];
+    x[..b.len().min(8)].copy_from_slice(&b[..b.len().min(8)]);
+    u64::from_ne_bytes(x)
+}
+
+fn guest_mem(rng: &mut Rng) -> Mem {
+    let n = rng.range(1, 3);
+    let mut ranges = Vec::new();
+    let mut base = 0x10_0000u64 * rng.range(1, 4);
+    for _ in 0..n {
+        let size = 0x1000 * rng.range(4, 64);
+        ranges.push((GuestAddress(base), size as usize));
+        base += size + 0x1000 * rng.range(0, 16);
+    }
+    Arc::new(GuestMemoryMmap::from_ranges(&ranges).expect("guest memory"))
+}
+
+/// The VhostBackend operations common to every kernel backend.
+fn common_backend<B: VhostBackend + AsRawFd>(cx: &Ctx, b: &B, mem: &Mem, translate: bool, name: &str, rng: &mut Rng, n: u64) {
+    let fd = b.as_raw_fd();
+    let u = &cx.u;
+    for _ in 0..n {
+        // GET_FEATURES returns what the kernel wrote
+        let r = b.get_features();
+        if let Some(rec) = cx.expect_ioctl(&format!("{name}.get_features"), fd, "VHOST_GET_FEATURES", &[0u8; 8], J::Null) {
+            if r.as_ref().ok().copied() != Some(u64_of(&rec.wb)) {
+                cx.bad(&format!("{name}.get_features"), "returned-value", jo! {"returned" => format!("{r:?}"), "kernel_wrote" => J::hex(&rec.wb)});
+            }
+        }
+        let f = rng.interesting64();
+        let _ = b.set_features(f);
+        cx.expect_ioctl(&format!("{name}.set_features"), fd, "VHOST_SET_FEATURES", &f.to_ne_bytes(), J::x64(f));
+        let _ = b.set_owner();
+        cx.expect_ioctl(&format!("{name}.set_owner"), fd, "VHOST_SET_OWNER", &[], J::Null);
+        let _ = b.reset_owner();
+        cx.expect_ioctl(&format!("{name}.reset_owner"), fd, "VHOST_RESET_OWNER", &[], J::Null);
+        let base = rng.interesting64();
+        let _ = b.set_log_base(base, None);
+        cx.expect_ioctl(&format!("{name}.set_log_base"), fd, "VHOST_SET_LOG_BASE", &base.to_ne_bytes(), J::x64(base));
+        let lfd = rng.range(0, 1000) as i32;
+        let _ = b.set_log_fd(lfd);
+        cx.expect_ioctl(&format!("{name}.set_log_fd"), fd, "VHOST_SET_LOG_FD", &lfd.to_ne_bytes(), J::I(lfd as i64));
+        // vring state messages
+        let (qi, num) = (rng.interesting64() as u32 as usize, rng.interesting64() as u16);
+        let _ = b.set_vring_num(qi, num);
+        cx.expect_ioctl(&format!("{name}.set_vring_num"), fd, "VHOST_SET_VRING_NUM", &layout(u, "vhost_vring_state", &[("index", 4, qi as u64), ("num", 4, num as u64)]), jo! {"index" => qi, "num" => num});
+        let _ = b.set_vring_base(qi, num);
+        cx.expect_ioctl(&format!("{name}.set_vring_base"), fd, "VHOST_SET_VRING_BASE", &layout(u, "vhost_vring_state", &[("index", 4, qi as u64), ("num", 4, num as u64)]), jo! {"index" => qi, "base" => num});
+        let r = b.get_vring_base(qi);
+        if let Some(rec) = cx.expect_ioctl(&format!("{name}.get_vring_base"), fd, "VHOST_GET_VRING_BASE", &layout(u, "vhost_vring_state", &[("index", 4, qi as u64), ("num", 4, 0)]), jo! {"index" => qi}) {
+            if r.as_ref().ok().map(|v| *v as u64) != Some(u64_of(&rec.wb)) {
+                cx.bad(&format!("{name}.get_vring_base"), "returned-value", jo! {"returned" => format!("{r:?}"), "kernel_wrote_num" => J::hex(&rec.wb)});
+            }
+        }
+        // vring file messages
+        let e = EventFd::new(0).expect("eventfd");
+        for (op, req) in [("set_vring_call", "VHOST_SET_VRING_CALL"), ("set_vring_kick", "VHOST_SET_VRING_KICK"), ("set_vring_err", "VHOST_SET_VRING_ERR")] {
+            let _ = match op {
+                "set_vring_call" => b.set_vring_call(qi, &e),
+                "set_vring_kick" => b.set_vring_kick(qi, &e),
+                _ => b.set_vring_err(qi, &e),
+            };
+            cx.expect_ioctl(&format!("{name}.{op}"), fd, req, &layout(u, "vhost_vring_file", &[("index", 4, qi as u64), ("fd", 4, e.as_raw_fd() as u64)]), jo! {"index" => qi, "fd" => e.as_raw_fd() as i64});
+        }
+        // memory table, 1..=255 regions
+        let nreg = match rng.below(4) {
+            0 => 1,
+            1 => 255,
+            _ => rng.range(1, 255),
+        } as usize;
+        let regs: Vec<VhostUserMemoryRegionInfo> = (0..nreg)
+            .map(|_| VhostUserMemoryRegionInfo { guest_phys_addr: rng.interesting64(), memory_size: rng.interesting64(), userspace_addr: rng.interesting64(), mmap_offset: rng.next(), mmap_handle: -1 })
+            .collect();
+        let _ = b.set_mem_table(&regs);
+        let mut want = layout(u, "vhost_memory", &[("nregions", 4, nreg as u64)]);
+        for r in &regs {
+            want.extend_from_slice(&layout(u, "vhost_memory_region", &[("guest_phys_addr", 8, r.guest_phys_addr), ("memory_size", 8, r.memory_size), ("userspace_addr", 8, r.userspace_addr), ("flags_padding", 8, 0)]));
+        }
+        cx.expect_ioctl(&format!("{name}.set_mem_table"), fd, "VHOST_SET_MEM_TABLE", &want, jo! {"regions" => nreg});
+        for bad_n in [0usize, 256, 300] {
+            let regs: Vec<VhostUserMemoryRegionInfo> = (0..bad_n).map(|_| VhostUserMemoryRegionInfo::default()).collect();
+            if b.set_mem_table(&regs).is_ok() {
+                cx.bad(&format!("{name}.set_mem_table"), "bad-region-count-accepted", jo! {"regions" => bad_n});
+            }
+            cx.expect_none(&format!("{name}.set_mem_table"), jo! {"regions" => bad_n});
+        }
+        // ring addresses
+        let regions: Vec<(u64, u64)> = mem.iter().map(|r| { use vm_memory::GuestMemoryRegion; (r.start_addr().0, r.len()) }).collect();
+        let (rb, rl) = regions[rng.below(regions.len() as u64) as usize];
+        let qsize = 1u16 << rng.range(0, 6);
+        let room = 16 * qsize as u64 + 64;
+        let pick = |rng: &mut Rng, align: u64| rb + (rng.below(rl - room) & !(align - 1));
+        let log_on = rng.chance(1, 2);
+        let cd = VringConfigData { queue_max_size: 64, queue_size: qsize, flags: log_on as u32, desc_table_addr: pick(rng, 16), used_ring_addr: pick(rng, 4), avail_ring_addr: pick(rng, 2), log_addr: if log_on || rng.chance(1, 2) { Some(rng.interesting64()) } else { None } };
+        let _ = b.set_vring_addr(qi, &cd);
+        let host = |gpa: u64| if translate { mem.get_host_address(GuestAddress(gpa)).map(|p| p as u64).unwrap_or(0) } else { gpa };
+        let want = layout(u, "vhost_vring_addr", &[("index", 4, qi as u64), ("flags", 4, cd.flags as u64), ("desc_user_addr", 8, host(cd.desc_table_addr)), ("used_user_addr", 8, host(cd.used_ring_addr)),
+            ("avail_user_addr", 8, host(cd.avail_ring_addr)), ("log_guest_addr", 8, if log_on { cd.log_addr.unwrap_or(0) } else { 0 })]);
+        cx.expect_ioctl(&format!("{name}.set_vring_addr"), fd, "VHOST_SET_VRING_ADDR", &want, jo! {"index" => qi, "queue_size" => qsize, "flags" => cd.flags, "desc" => J::x64(cd.desc_table_addr), "translated" => translate});
+        // invalid ring configurations: refused before any ioctl
+        for (why, c2) in [
+            ("size-zero", VringConfigData { queue_size: 0, ..cd }),
+            ("size-not-power-of-two", VringConfigData { queue_size: 3, ..cd }),
+            ("size-not-power-of-two-2", VringConfigData { queue_size: 48, ..cd }),
+            ("size-over-max", VringConfigData { queue_size: 128, ..cd }),
+            ("log-flag-without-address", VringConfigData { flags: 1, log_addr: None, ..cd }),
+        ] {
+            if b.set_vring_addr(qi, &c2).is_ok() {
+                cx.bad(&format!("{name}.set_vring_addr"), &format!("invalid-config-accepted:{why}"), jo! {"queue_size" => c2.queue_size, "max" => c2.queue_max_size, "flags" => c2.flags});
+            }
+            cx.expect_none(&format!("{name}.set_vring_addr"), J::S(why.into()));
+        }
+    }
+}
+
+fn iotlb_cases<B: VhostIotlbBackend + VhostKernFeatures + AsRawFd>(cx: &Ctx, b: &mut B, name: &str, rng: &mut Rng, n: u64) {
+    let u = &cx.u;
+    let fd = b.as_raw_fd();
+    for _ in 0..n {
+        // backend feature negotiation selects v1 / v2
+        let feats = match rng.below(4) {
+            0 => 0,
+            1 => 1u64 << u.konst("VHOST_BACKEND_F_IOTLB_MSG_V2"),
+            2 => rng.next() | (1u64 << u.konst("VHOST_BACKEND_F_IOTLB_MSG_V2")),
+            _ => rng.next() & !(1u64 << u.konst("VHOST_BACKEND_F_IOTLB_MSG_V2")),
+        };
+        let _ = b.set_backend_features(feats);
+        cx.expect_ioctl(&format!("{name}.set_backend_features"), fd, "VHOST_SET_BACKEND_FEATURES", &feats.to_ne_bytes(), J::x64(feats));
+        let r = b.get_backend_features();
+        if let Some(rec) = cx.expect_ioctl(&format!("{name}.get_backend_features"), fd, "VHOST_GET_BACKEND_FEATURES", &[0u8; 8], J::Null) {
+            if r.as_ref().ok().copied() != Some(u64_of(&rec.wb)) {
+                cx.bad(&format!("{name}.get_backend_features"), "returned-value", jo! {"returned" => format!("{r:?}")});
+            }
+        }
+        let v2 = feats & (1u64 << u.konst("VHOST_BACKEND_F_IOTLB_MSG_V2")) != 0;
+        let perm = *rng.pick(&[VhostAccess::No, VhostAccess::ReadOnly, VhostAccess::WriteOnly, VhostAccess::ReadWrite]);
+        let ty = *rng.pick(&[VhostIotlbType::Miss, VhostIotlbType::Update, VhostIotlbType::Invalidate, VhostIotlbType::AccessFail, VhostIotlbType::BatchBegin, VhostIotlbType::BatchEnd]);
+        let msg = VhostIotlbMsg { iova: rng.interesting64(), size: rng.interesting64(), userspace_addr: rng.interesting64(), perm, msg_type: ty };
+        let _ = b.send_iotlb_msg(&msg);
+        let log = take_log(&cx.shim);
+        report::eval(1);
+        report::count(&format!("op.{name}.send_iotlb_msg"), 1);
+        let sname = if v2 { "vhost_msg_v2" } else { "vhost_msg" };
+        let mut want = vec![0u8; u.size(sname)];
+        let tconst = if v2 { u.konst("VHOST_IOTLB_MSG_V2") } else { u.konst("VHOST_IOTLB_MSG") };
+        let to = u.off(sname, "type");
+        want[to..to + 4].copy_from_slice(&(tconst as u32).to_ne_bytes());
+        let io = u.off(sname, "iotlb");
+        let inner = layout(u, "vhost_iotlb_msg", &[("iova", 8, msg.iova), ("size", 8, msg.size), ("uaddr", 8, msg.userspace_addr), ("perm", 1, perm as u8 as u64), ("type", 1, ty as u8 as u64)]);
+        want[io..io + inner.len()].copy_from_slice(&inner);
+        report::distinct(report::hash_mix(report::hash_str(&format!("{name}.iotlb.{v2}")), report::hash_bytes(&want)));
+        // struct padding (between `type` and the union, after the last iotlb field) is not defined
+        // by the UAPI: compare the fields only
+        let fields_eq = |got: &[u8]| -> bool {
+            let f = |s: &str, n: &str, w: usize, base: usize| { let o = base + u.off(s, n); got[o..o + w] == want[o..o + w] };
+            got.len() == want.len()
+                && got[to..to + 4] == want[to..to + 4]
+                && f("vhost_iotlb_msg", "iova", 8, io) && f("vhost_iotlb_msg", "size", 8, io) && f("vhost_iotlb_msg", "uaddr", 8, io)
+                && f("vhost_iotlb_msg", "perm", 1, io) && f("vhost_iotlb_msg", "type", 1, io)
+        };
+        let ok = log.len() == 1 && log[0].kind == 2 && log[0].fd == fd && fields_eq(&log[0].arg);
+        if !ok {
+            cx.bad(&format!("{name}.send_iotlb_msg"), if log.len() != 1 { "write-count" } else if log[0].arg.len() != want.len() { "wrong-layout-version" } else { "message-bytes" },
+                jo! {"acked_backend_features" => J::x64(feats), "v2_expected" => v2, "expected" => J::hex(&want), "captured" => log.iter().map(|r| J::hex(&r.arg)).collect::<Vec<J>>()});
+            continue;
+        }
+        report::sample(&format!("{name}.iotlb.{v2}"), jo! {"operation" => "send_iotlb_msg", "layout" => sname, "bytes" => J::hex(&want)});
+        // parse back
+        let mut out = VhostIotlbMsg::default();
+        let parsed = if v2 {
+            let m: vhost_msg_v2 = unsafe { std::ptr::read_unaligned(log[0].arg.as_ptr() as *const vhost_msg_v2) };
+            m.parse(&mut out)
+        } else {
+            let m: vhost_msg = unsafe { std::ptr::read_unaligned(log[0].arg.as_ptr() as *const vhost_msg) };
+            m.parse(&mut out)
+        };
+        let same = out.iova == msg.iova && out.size == msg.size && out.userspace_addr == msg.userspace_addr && out.perm == msg.perm && out.msg_type == msg.msg_type;
+        if parsed.is_err() || !same {
+            cx.bad(&format!("{name}.iotlb_parse"), "round-trip", jo! {"sent" => format!("{:x?}", (msg.iova, msg.size, msg.userspace_addr, msg.perm, msg.msg_type)), "parsed" => format!("{:x?}", (out.iova, out.size, out.userspace_addr, out.perm, out.msg_type)), "result" => format!("{parsed:?}")});
+        }
+    }
+}
+
+fn vdpa_cases(cx: &Ctx, rng: &mut Rng, n: u64) {
+    let u = &cx.u;
+    let mem = guest_mem(rng);
+    let mut v = match VhostKernVdpa::new("/dev/vhost-vdpa-verif", mem.clone()) {
+        Ok(v) => v,
+        Err(e) => {
+            report::inconclusive(&format!("cannot open the dummy vdpa device (shim not loaded?): {e:?}"));
+            return;
+        }
+    };
+    let fd = v.as_raw_fd();
+    let _ = take_log(&cx.shim);
+    // the blanket VhostBackend implementation (fully qualified: addresses are translated) ...
+    common_backend(cx, &v, &mem, true, "vdpa(trait)", rng, n / 4 + 1);
+    iotlb_cases(cx, &mut v, "vdpa", rng, n);
+    for _ in 0..n {
+        // ... and the inherent set_vring_addr users call as `vdpa.set_vring_addr(..)`: unchanged addresses
+        let qsize = 1u16 << rng.range(0, 6);
+        let log_on = rng.chance(1, 2);
+        let cd = VringConfigData { queue_max_size: 64, queue_size: qsize, flags: log_on as u32, desc_table_addr: rng.interesting64(), used_ring_addr: rng.interesting64(), avail_ring_addr: rng.interesting64(), log_addr: if log_on { Some(rng.interesting64()) } else { None } };
+        let qi = rng.below(70000) as usize;
+        let _ = v.set_vring_addr(qi, &cd);
+        let want = layout(u, "vhost_vring_addr", &[("index", 4, qi as u64), ("flags", 4, cd.flags as u64), ("desc_user_addr", 8, cd.desc_table_addr), ("used_user_addr", 8, cd.used_ring_addr), ("avail_user_addr", 8, cd.avail_ring_addr), ("log_guest_addr", 8, cd.log_addr.unwrap_or(0))]);
+        cx.expect_ioctl("vdpa.set_vring_addr", fd, "VHOST_SET_VRING_ADDR", &want, jo! {"index" => qi, "unchanged_addresses" => true});
+        for (why, c2) in [("size-zero", VringConfigData { queue_size: 0, ..cd }), ("size-not-power-of-two", VringConfigData { queue_size: 6, ..cd }), ("size-over-max", VringConfigData { queue_size: 128, ..cd }), ("log-flag-without-address", VringConfigData { flags: 1, log_addr: None, ..cd })] {
+            if v.set_vring_addr(qi, &c2).is_ok() {
+                cx.bad("vdpa.set_vring_addr", &format!("invalid-config-accepted:{why}"), J::Null);
+            }
+            cx.expect_none("vdpa.set_vring_addr", J::S(why.into()));
+        }
+        macro_rules! getter {
+            ($op:literal, $req:literal, $call:expr, $w:expr) => {{
+                let r = $call;
+                if let Some(rec) = cx.expect_ioctl(concat!("vdpa.", $op), fd, $req, &vec![0u8; $w], J::Null) {
+                    if r.as_ref().ok().map(|x| *x as u64) != Some(u64_of(&rec.wb)) {
+                        cx.bad(concat!("vdpa.", $op), "returned-value", jo! {"returned" => format!("{r:?}"), "kernel_wrote" => J::hex(&rec.wb)});
+                    }
+                }
+            }};
+        }
+        getter!("get_device_id", "VHOST_VDPA_GET_DEVICE_ID", v.get_device_id(), 4);
+        getter!("get_status", "VHOST_VDPA_GET_STATUS", v.get_status(), 1);
+        getter!("get_vring_num", "VHOST_VDPA_GET_VRING_NUM", v.get_vring_num(), 2);
+        getter!("get_config_size", "VHOST_VDPA_GET_CONFIG_SIZE", v.get_config_size(), 4);
+        getter!("get_vqs_count", "VHOST_VDPA_GET_VQS_COUNT", v.get_vqs_count(), 4);
+        getter!("get_group_num", "VHOST_VDPA_GET_GROUP_NUM", v.get_group_num(), 4);
+        getter!("get_as_num", "VHOST_VDPA_GET_AS_NUM", v.get_as_num(), 4);
+        let st = rng.next() as u8;
+        let _ = v.set_status(st);
+        cx.expect_ioctl("vdpa.set_status", fd, "VHOST_VDPA_SET_STATUS", &[st], J::U(st as u64));
+        let r = v.get_iova_range();
+        if let Some(rec) = cx.expect_ioctl("vdpa.get_iova_range", fd, "VHOST_VDPA_GET_IOVA_RANGE", &[0u8; 16], J::Null) {
+            let fo = u.off("vhost_vdpa_iova_range", "first");
+            let lo = u.off("vhost_vdpa_iova_range", "last");
+            let ok = r.as_ref().ok().is_some_and(|x| x.first == u64_of(&rec.wb[fo..fo + 8]) && x.last == u64_of(&rec.wb[lo..lo + 8]));
+            if !ok {
+                cx.bad("vdpa.get_iova_range", "returned-value", jo! {"kernel_wrote" => J::hex(&rec.wb)});
+            }
+        }
+        // config space, buffers of 0..=256 bytes
+        let len = match rng.below(4) {
+            0 => 0,
+            1 => 256,
+            _ => rng.range(0, 256),
+        } as usize;
+        let off = rng.interesting64() as u32;
+        let data = rng.bytes(len);
+        let _ = v.set_config(off, &data);
+        let mut want = layout(u, "vhost_vdpa_config", &[("off", 4, off as u64), ("len", 4, len as u64)]);
+        want.extend_from_slice(&data);
+        cx.expect_ioctl("vdpa.set_config", fd, "VHOST_VDPA_SET_CONFIG", &want, jo! {"off" => off, "len" => len});
+        let mut buf = vec![0u8; len];
+        let r = v.get_config(off, &mut buf);
+        let mut want = layout(u, "vhost_vdpa_config", &[("off", 4, off as u64), ("len", 4, len as u64)]);
+        want.extend(std::iter::repeat(0u8).take(len));
+        if let Some(rec) = cx.expect_ioctl("vdpa.get_config", fd, "VHOST_VDPA_GET_CONFIG", &want, jo! {"off" => off, "len" => len}) {
+            if r.is_err() || buf != rec.wb {
+                cx.bad("vdpa.get_config", "returned-value", jo! {"len" => len, "buffer" => J::hex(&buf), "kernel_wrote" => J::hex(&rec.wb)});
+            }
+        }
+        let (qi, en) = (rng.interesting64() as u32 as usize, rng.chance(1, 2));
+        let _ = v.set_vring_enable(qi, en);
+        cx.expect_ioctl("vdpa.set_vring_enable", fd, "VHOST_VDPA_SET_VRING_ENABLE", &layout(u, "vhost_vring_state", &[("index", 4, qi as u64), ("num", 4, en as u64)]), jo! {"index" => qi, "enable" => en});
+        let e = EventFd::new(0).expect("eventfd");
+        let _ = v.set_config_call(&e);
+        cx.expect_ioctl("vdpa.set_config_call", fd, "VHOST_VDPA_SET_CONFIG_CALL", &e.as_raw_fd().to_ne_bytes(), J::I(e.as_raw_fd() as i64));
+        let q32 = rng.interesting64() as u32;
+        let r = v.get_vring_group(q32);
+        if let Some(rec) = cx.expect_ioctl("vdpa.get_vring_group", fd, "VHOST_VDPA_GET_VRING_GROUP", &layout(u, "vhost_vring_state", &[("index", 4, q32 as u64), ("num", 4, 0)]), J::U(q32 as u64)) {
+            if r.as_ref().ok().map(|x| *x as u64) != Some(u64_of(&rec.wb)) {
+                cx.bad("vdpa.get_vring_group", "returned-value", jo! {"returned" => format!("{r:?}")});
+            }
+        }
+        let (g, asid) = (rng.interesting64() as u32, rng.interesting64() as u32);
+        let _ = v.set_group_asid(g, asid);
+        cx.expect_ioctl("vdpa.set_group_asid", fd, "VHOST_VDPA_SET_GROUP_ASID", &layout(u, "vhost_vring_state", &[("index", 4, g as u64), ("num", 4, asid as u64)]), jo! {"group" => g, "asid" => asid});
+        let _ = v.suspend();
+        cx.expect_ioctl("vdpa.suspend", fd, "VHOST_VDPA_SUSPEND", &[], J::Null);
+        // dma_map / dma_unmap are IOTLB updates / invalidations
+        let _ = v.set_backend_features(1u64 << u.konst("VHOST_BACKEND_F_IOTLB_MSG_V2"));
+        let _ = take_log(&cx.shim);
+        let (iova, size, va, ro) = (rng.interesting64(), rng.interesting64(), rng.interesting64(), rng.chance(1, 2));
+        let _ = v.dma_map(iova, size, va as *const u8, ro);
+        let log = take_log(&cx.shim);
+        report::eval(1);
+        report::count("op.vdpa.dma_map", 1);
+        let io = u.off("vhost_msg_v2", "iotlb");
+        let inner = layout(u, "vhost_iotlb_msg", &[("iova", 8, iova), ("size", 8, size), ("uaddr", 8, va), ("perm", 1, if ro { u.konst("VHOST_ACCESS_RO") } else { u.konst("VHOST_ACCESS_RW") }), ("type", 1, u.konst("VHOST_IOTLB_UPDATE"))]);
+        if log.len() != 1 || log[0].kind != 2 || log[0].arg.len() != u.size("vhost_msg_v2") || log[0].arg[io..io + inner.len()] != inner[..] {
+            cx.bad("vdpa.dma_map", "message-bytes", jo! {"expected_iotlb" => J::hex(&inner), "captured" => log.iter().map(|r| J::hex(&r.arg)).collect::<Vec<J>>()});
+        }
+        let _ = v.dma_unmap(iova, size);
+        let log = take_log(&cx.shim);
+        report::eval(1);
+        report::count("op.vdpa.dma_unmap", 1);
+        let inner = layout(u, "vhost_iotlb_msg", &[("iova", 8, iova), ("size", 8, size), ("uaddr", 8, 0), ("perm", 1, 0), ("type", 1, u.konst("VHOST_IOTLB_INVALIDATE"))]);
+        if log.len() != 1 || log[0].kind != 2 || log[0].arg.len() != u.size("vhost_msg_v2") || log[0].arg[io..io + inner.len()] != inner[..] {
+            cx.bad("vdpa.dma_unmap", "message-bytes", jo! {"expected_iotlb" => J::hex(&inner), "captured" => log.iter().map(|r| J::hex(&r.arg)).collect::<Vec<J>>()});
+        }
+    }
+    // errors from the kernel are reported
+    unsafe { (cx.shim.fail_next)(1) };
+    let r = v.get_device_id();
+    let _ = take_log(&cx.shim);
+    report::eval(1);
+    report::distinct_str("fault:ioctl-eio");
+    if r.is_ok() {
+        cx.bad("vdpa.get_device_id", "kernel-error-swallowed", J::Null);
+    }
+}
+
+fn net_vsock(cx: &Ctx, rng: &mut Rng, n: u64) {
+    let u = &cx.u;
+    let mem = guest_mem(rng);
+    match Net::new(mem.clone()) {
+        Err(e) => report::inconclusive(&format!("cannot open the dummy vhost-net device: {e:?}")),
+        Ok(net) => {
+            let _ = take_log(&cx.shim);
+            common_backend(cx, &net, &mem, true, "net", rng, n / 4 + 1);
+            let fd = net.as_raw_fd();
+            for _ in 0..n {
+                let qi = rng.interesting64() as u32 as usize;
+                let f = File::open("/dev/null").expect("null");
+                let with = rng.chance(2, 3);
+                let _ = net.set_backend(qi, if with { Some(&f) } else { None });
+                let want_fd = if with { f.as_raw_fd() as u32 as u64 } else { u32::MAX as u64 };
+                cx.expect_ioctl("net.set_backend", fd, "VHOST_NET_SET_BACKEND", &layout(u, "vhost_vring_file", &[("index", 4, qi as u64), ("fd", 4, want_fd)]), jo! {"index" => qi, "with_fd" => with});
+            }
+        }
+    }
+    let mem = guest_mem(rng);
+    match Vsock::new(mem.clone()) {
+        Err(e) => report::inconclusive(&format!("cannot open the dummy vhost-vsock device: {e:?}")),
+        Ok(vs) => {
+            let _ = take_log(&cx.shim);
+            common_backend(cx, &vs, &mem, true, "vsock", rng, n / 4 + 1);
+            let fd = vs.as_raw_fd();
+            for _ in 0..n {
+                let cid = rng.interesting64();
+                let _ = vs.set_guest_cid(cid);
+                cx.expect_ioctl("vsock.set_guest_cid", fd, "VHOST_VSOCK_SET_GUEST_CID", &cid.to_ne_bytes(), J::x64(cid));
+                let _ = vs.start();
+                cx.expect_ioctl("vsock.start", fd, "VHOST_VSOCK_SET_RUNNING", &1i32.to_ne_bytes(), J::Null);
+                let _ = vs.stop();
+                cx.expect_ioctl("vsock.stop", fd, "VHOST_VSOCK_SET_RUNNING", &0i32.to_ne_bytes(), J::Null);
+            }
+        }
+    }
+}
+
+fn main() {
+    let cfg = common::cli::parse("hk");
+    report::init(&cfg.check.to_uppercase(), cfg.shard, cfg.seed);
+    report::assume("request numbers, struct sizes and field offsets come from a C program compiled against /usr/include/linux/vhost.h (uapi.txt); the shim returns 0 for every vhost ioctl and fills _IOC_READ arguments with a per-call pattern");
+    report::assume("the vDPA backend is called the way user code does (inherent set_vring_addr: addresses unchanged); the blanket trait implementation (translated addresses) is exercised separately; IOTLB parse is fed valid perm/type codes only");
+    let Some(shim) = shim() else {
+        report::inconclusive("LD_PRELOAD shim not loaded (hk_log_take not found)");
+        std::process::exit(report::finish());
+    };
+    let Some(u) = Uapi::load() else {
+        report::inconclusive("uapi.txt not found (run harness/interpose/build.sh)");
+        std::process::exit(report::finish());
+    };
+    let cx = Ctx { cfg: &cfg, shim, u };
+    let mut rng = Rng::new(cfg.seed.wrapping_mul(0xc19).wrapping_add(cfg.shard.wrapping_mul(7)));
+    let n = cfg.pick(40, 1500);
+    let r = std::panic::catch_unwind(std::panic::AssertUnwindSafe(|| {
+        vdpa_cases(&cx, &mut rng, n);
+        net_vsock(&cx, &mut rng, n);
+    }));
+    if r.is_err() {
+        report::inconclusive("panic in hk (harness or library)");
+    }
+    std::process::exit(report::finish());
+}
